@@ -11,10 +11,16 @@ CONSTANTS Kinds,        \* subset of {"choice", "plain", "confirm"}
           NAnswers,     \* ... drawn from the first NAnswers entries of AnswerPool
           Attempts,     \* set of attempt limits (0 = unlimited)
           NDefaults,    \* defaults 0..NDefaults of DefaultPool (0 = no default)
-          Inter         \* set of values of `interactive`
+          Inter,        \* set of values of `interactive`
+          Multis,       \* set of values of `multi` for choice questions
+          Muts,         \* what the caller did to its choice list between building the question and asking it:
+                        \*   0 nothing, 1 appended the last choice, 2 replaced the first choice, 3 removed a trailing one
+          Rounds        \* 1: one dialogue;  2: the same question OBJECT is asked a second time on the rest of the input
 
-VARIABLE idx            \* the indices the initial state was built from (constant along a behaviour)
-mvars == <<vars, idx>>
+VARIABLES idx,          \* the indices the initial state was built from (constant along a behaviour)
+          round,        \* 1 or 2
+          first         \* the outcome of the first dialogue (round 2)
+mvars == <<vars, idx, round, first>>
 
 ChoicePool == << <<"a">>, <<"1">>, <<"x", " ", "y">>, <<"A">>, <<"b">>, <<"a", ".", "b">> >>
 AnswerPool == << <<>>, <<"0">>, <<"1">>, <<"a">>, <<"z", "z">>, <<"-", "1">>, <<"9">>, <<"a", ",", "b">>,
@@ -37,40 +43,55 @@ ConfirmAnswers == << <<>>, <<"y">>, <<"Y">>, <<"y", "e", "s">>, <<"n">>, <<"n", 
                      <<"n", "y">>, <<"o", "u", "i">>, <<"y", "e">>, <<"Y", "E", "S">>, <<" ">>, <<"y", "e", "s", "s">> >>
 NoPat == Patterns[1]
 
-Q(kind, cs, mu, hasDef, def, defB, att, inter, val, pat) ==
-  [kind |-> kind, choices |-> cs, multi |-> mu, hasDef |-> hasDef, def |-> def, defB |-> defB, maxAtt |-> att,
+Q(kind, cs, bs, mu, hasDef, def, defB, att, inter, val, pat) ==
+  [kind |-> kind, choices |-> cs, built |-> bs, multi |-> mu, hasDef |-> hasDef, def |-> def, defB |-> defB, maxAtt |-> att,
    interactive |-> inter, validator |-> val, pat |-> pat]
+
+First0 == [out |-> NoOut, r |-> 0, n |-> 0, e |-> 0, w |-> 0]
+\* the list the question was built with, given the list at the time of asking and what the caller did in between
+Gone == <<"g", "o", "n", "e">>
+BuiltOf(cs, mt) == CASE mt = 0 -> cs
+                     [] mt = 1 -> SubSeq(cs, 1, Len(cs) - 1)
+                     [] mt = 2 -> <<Gone>> \o Tail(cs)
+                     [] mt = 3 -> Append(cs, Gone)
 
 InitChoice ==
   /\ "choice" \in Kinds
   /\ \E n \in 1..MaxChoices : \E ci \in [1..n -> 1..NPool] : \E m \in 0..MaxLines : \E si \in [1..m -> 1..NAnswers] :
-     \E att \in Attempts, mu \in BOOLEAN, d \in 0..NDefaults, inter \in Inter :
-       /\ DefOK(d, mu, n) /\ (~inter => (m = 0 /\ att = 0))
-       /\ Start(Q("choice", [k \in 1..n |-> ChoicePool[ci[k]]], mu, d > 0, IF d > 0 THEN DefaultPool[d] ELSE <<>>,
+     \E att \in Attempts, mu \in Multis, d \in 0..NDefaults, inter \in Inter, mt \in Muts :
+       /\ DefOK(d, mu, n) /\ (~inter => (m = 0 /\ att = 0)) /\ (mt = 1 => n >= 2)
+       /\ Start(Q("choice", [k \in 1..n |-> ChoicePool[ci[k]]], BuiltOf([k \in 1..n |-> ChoicePool[ci[k]]], mt), mu, d > 0, IF d > 0 THEN DefaultPool[d] ELSE <<>>,
                   FALSE, att, inter, TRUE, NoPat),
                 [k \in 1..m |-> AnswerPool[si[k]]], 0)
        /\ idx = [c |-> ci, s |-> si, d |-> d, p |-> 0]
+       /\ round = 1 /\ first = First0
 
 InitPlain ==
   /\ "plain" \in Kinds
   /\ \E n \in 1..MaxChoices : \E ci \in [1..n -> 1..NPool] : \E m \in 0..MaxLines : \E si \in [1..m -> 1..NAnswers] :
      \E att \in Attempts, val \in BOOLEAN, d \in 0..2, inter \in Inter :
        /\ (~inter => (m = 0 /\ att = 0)) /\ (~val => (att = 0 /\ n = 1 /\ m <= 1))
-       /\ Start(Q("plain", [k \in 1..n |-> ChoicePool[ci[k]]], FALSE, d > 0, IF d > 0 THEN PlainDefaults[d] ELSE <<>>,
+       /\ Start(Q("plain", [k \in 1..n |-> ChoicePool[ci[k]]], [k \in 1..n |-> ChoicePool[ci[k]]], FALSE, d > 0, IF d > 0 THEN PlainDefaults[d] ELSE <<>>,
                   FALSE, att, inter, val, NoPat),
                 [k \in 1..m |-> AnswerPool[si[k]]], 0)
        /\ idx = [c |-> ci, s |-> si, d |-> d, p |-> 0]
+       /\ round = 1 /\ first = First0
 
 InitConfirm ==
   /\ "confirm" \in Kinds
   /\ \E m \in 0..1 : \E si \in [1..m -> 1..Len(ConfirmAnswers)] : \E p \in 1..Len(Patterns), db \in BOOLEAN, inter \in Inter :
-       /\ Start(Q("confirm", <<>>, FALSE, TRUE, <<>>, db, 0, inter, FALSE, Patterns[p]),
+       /\ Start(Q("confirm", <<>>, <<>>, FALSE, TRUE, <<>>, db, 0, inter, FALSE, Patterns[p]),
                 [k \in 1..m |-> ConfirmAnswers[si[k]]], 0)
        /\ idx = [c |-> <<>>, s |-> si, d |-> 0, p |-> p]
+       /\ round = 1 /\ first = First0
 
 Init == InitChoice \/ InitPlain \/ InitConfirm
-MNext == Next /\ UNCHANGED idx
-CNext == CoreNext /\ UNCHANGED idx
+\* the same question object is asked again where the first dialogue stopped reading
+Again == /\ pc = "done" /\ round < Rounds /\ round' = round + 1
+         /\ first' = [out |-> out, r |-> obs.reads, n |-> pos - start, e |-> obs.errs, w |-> obs.prompts]
+         /\ ReAsk(script, pos) /\ UNCHANGED idx
+MNext == (Next /\ UNCHANGED <<idx, round, first>>) \/ Again
+CNext == CoreNext /\ UNCHANGED <<idx, round, first>>
 Spec == Init /\ [][MNext]_mvars /\ WF_mvars(MNext)
 \* for the large enumerations (safety + emission only; liveness is checked on the smaller configurations)
 SafetySpec == Init /\ [][MNext]_mvars
@@ -80,6 +101,9 @@ CoreSpec == Init /\ [][CNext]_mvars /\ WF_mvars(CNext)
 \* ------------------------------------------------------------------ the property on the model's own outcome
 O == ModelObs
 Fin == pc = "done"
+Last == Fin /\ round = Rounds
+A_object         == ObjectIntact
+AllEnd           == <>Last          \* every dialogue of the behaviour ends
 P_terminates     == Fin => PTerminates(O)
 P_noninteractive == Fin => PNonInteractive(q, O)
 P_member         == Fin => PMember(q, O)
@@ -105,7 +129,10 @@ ASSUME PrintT(ToJson([pools |-> TRUE, choices |-> FlatAll(ChoicePool), answers |
                       patterns |-> [k \in 1..Len(Patterns) |->
                                       [ci |-> Patterns[k].ci, whole |-> Patterns[k].whole, alts |-> FlatAll(Patterns[k].alts)]]]))
 
-Emit == Fin => PrintT(ToJson([kind |-> q.kind, c |-> idx.c, s |-> idx.s, d |-> idx.d, p |-> idx.p, m |-> q.multi,
+OutJ(o) == [ok |-> o.kind, x |-> o.cls, t |-> o.val.t, vs |-> Flat(o.val.s), vl |-> FlatAll(o.val.l), vb |-> o.val.b]
+Emit == Last => PrintT(ToJson([kind |-> q.kind, b |-> FlatAll(q.built), rounds |-> Rounds,
+                              f |-> [o |-> OutJ(first.out), r |-> first.r, n |-> first.n, e |-> first.e, w |-> first.w],
+                              c |-> idx.c, s |-> idx.s, d |-> idx.d, p |-> idx.p, m |-> q.multi,
                               a |-> q.maxAtt, i |-> q.interactive, v |-> q.validator, db |-> q.defB,
                               ok |-> out.kind, x |-> out.cls, t |-> out.val.t, vs |-> Flat(out.val.s),
                               vl |-> FlatAll(out.val.l), vb |-> out.val.b,
